@@ -3,6 +3,8 @@
 package container
 
 import (
+	"math"
+
 	"github.com/AdguardTeam/golibs/internal/verifrt"
 )
 
@@ -363,5 +365,24 @@ func VerifC11SortedNew() {
 	m = m.del(v)
 	verifrt.Assert(!set.Has(v), "SortedSliceSet: Has(v) after Delete(v)")
 	c11CheckSorted(set, m, "SortedSliceSet after New and Delete")
+	verifrt.Cover("done")
+}
+
+// VerifC11MapSetNaN: a MapSet of float64 holding a NaN (a key that is not
+// equal to itself): Clear still empties the set, Delete cannot remove it.
+func VerifC11MapSetNaN() {
+	nan := math.NaN()
+	set := NewMapSet(1.5, nan, 2.5)
+	verifrt.Assert(set.Len() == 3, "MapSet[float64] with a NaN: Len")
+	if verifrt.Bool2() {
+		set.Add(nan) // every NaN is a new element
+		verifrt.Assert(set.Len() == 4, "MapSet[float64]: a second NaN is a new element")
+	}
+	set.Clear()
+	verifrt.Assert(set.Len() == 0 && len(set.Values()) == 0, "MapSet[float64] with a NaN is not empty after Clear")
+	n := 0
+	set.Range(func(float64) bool { n++; return true })
+	verifrt.Assert(n == 0, "MapSet[float64] with a NaN: Range yields elements after Clear")
+	verifrt.Assert(set.Equal(NewMapSet[float64]()), "MapSet[float64] with a NaN: a cleared set is not Equal to a new one")
 	verifrt.Cover("done")
 }
